@@ -55,6 +55,9 @@ type Config struct {
 	MaxDepth  int
 	MaxStates int64 // 0 = unlimited
 	Parallel  int   // goroutines; 1 for worlds with global state
+	// Prefix, if set, is a fixed initial operation sequence: the search
+	// starts from the state it reaches (used to shard one BFS by first op).
+	Prefix []Op
 	// Final, if set, is evaluated on every distinct state reached (e.g.
 	// quiescence oracles that are too costly for every transition).
 	Final func(w World) *core.Violation
@@ -79,12 +82,24 @@ func Explore(cfg Config, res *core.Result) core.Sub {
 	var samples []any
 	capped := false
 
-	w0 := cfg.Fresh()
+	w0, v0 := replay(cfg, cfg.Prefix)
+	if v0 != nil {
+		if v0.Sub == "" {
+			v0.Sub = cfg.Name
+		}
+		if v0.Replay == nil {
+			v0.Replay = map[string]any{"config": cfg.Name, "ops": cfg.Prefix}
+		}
+		res.Violate(*v0)
+		closeWorld(w0)
+		return core.Sub{Name: cfg.Name, States: 1, Transitions: int64(len(cfg.Prefix)), Executions: 1, Outcomes: 1,
+			Exhaustive: true, Bound: fmt.Sprintf("depth<=%d", cfg.MaxDepth)}
+	}
 	k0 := md5.Sum([]byte(w0.Canon()))
 	closeWorld(w0)
 	seen[k0] = struct{}{}
-	frontier := []node{{}}
-	depth := 0
+	frontier := []node{{path: append([]Op{}, cfg.Prefix...)}}
+	depth := len(cfg.Prefix)
 
 	for len(frontier) > 0 && depth < cfg.MaxDepth {
 		if !core.TimeLeft() {
